@@ -82,46 +82,38 @@ Proof.
   destruct (cf_store_ok f); cbn; discriminate.
 Qed.
 
-(** a cheque whose EIP-712 signature verifies carries a payout: the typed-data encoder
-    rejects a nil *big.Int (it is printed as "<nil>", not a uint256) *)
-Definition verified_has_payout (j : json_cheque) : Prop :=
-  match j with JOk _ f => cf_verified f = true -> cf_payout_nil f = false | JBad => True end.
-
-Lemma traffic_handshake_no_pan known taken f :
-  (cf_verified f = true -> cf_payout_nil f = false) -> traffic_handshake known taken f <> Pan.
+(** the payout is dereferenced only after a successful verification, and a nil payout never verifies *)
+Lemma traffic_handshake_no_pan known taken f : traffic_handshake known taken f <> Pan.
 Proof.
-  intros H. unfold traffic_handshake.
-  assert (Hg : forall b e, guard b e = Val tt \/ guard b e = Ret e) by (intros [] ?; cbn; auto).
+  unfold traffic_handshake, cf_verified.
   destruct known; cbn.
-  - destruct (cf_sig_nil f) eqn:Hs; cbn; [discriminate|].
+  - destruct (cf_sig_nil f); cbn; [discriminate|].
     destruct (cf_rec_is_peer f); cbn; [|discriminate].
-    destruct (cf_verified f) eqn:Hv; cbn; [|discriminate].
-    destruct (cf_issuer_self f); cbn; [|discriminate].
-    rewrite (H eq_refl); cbn; discriminate.
+    destruct (cf_payout_nil f); cbn; [discriminate|].
+    destruct (cf_sig_recovers f); cbn; [|discriminate].
+    destruct (cf_issuer_self f); cbn; discriminate.
   - destruct taken; cbn; [discriminate|].
-    destruct (cf_sig_nil f) eqn:Hs; cbn; [discriminate|].
-    destruct (cf_verified f) eqn:Hv; cbn; [|discriminate].
-    destruct (cf_issuer_self f); cbn; [|discriminate].
-    rewrite (H eq_refl); cbn; discriminate.
+    destruct (cf_sig_nil f); cbn; [discriminate|].
+    destruct (cf_payout_nil f); cbn; [discriminate|].
+    destruct (cf_sig_recovers f); cbn; [|discriminate].
+    destruct (cf_issuer_self f); cbn; discriminate.
 Qed.
 
-Lemma traffic_init_in_total known taken m j :
-  verified_has_payout j -> traffic_init_in known taken m j <> Panicked.
+Lemma traffic_init_in_total known taken m j : traffic_init_in known taken m j <> Panicked.
 Proof.
-  intros H. unfold traffic_init_in.
+  unfold traffic_init_in.
   destruct m; cbn; [|discriminate].
   destruct j as [|n f]; cbn; [discriminate|].
-  pose proof (traffic_handshake_no_pan known taken f H) as Hn.
+  pose proof (traffic_handshake_no_pan known taken f) as Hn.
   destruct (traffic_handshake known taken f); cbn; try discriminate. contradiction.
 Qed.
 
-Lemma traffic_init_out_total known taken m j :
-  verified_has_payout j -> traffic_init_out known taken m j <> Panicked.
+Lemma traffic_init_out_total known taken m j : traffic_init_out known taken m j <> Panicked.
 Proof.
-  intros H. unfold traffic_init_out.
+  unfold traffic_init_out.
   destruct m; cbn; [|discriminate].
   destruct j as [|n f]; cbn; [discriminate|].
-  pose proof (traffic_handshake_no_pan known taken f H) as Hn.
+  pose proof (traffic_handshake_no_pan known taken f) as Hn.
   destruct (traffic_handshake known taken f); cbn; try discriminate. contradiction.
 Qed.
 
@@ -429,4 +421,95 @@ Proof.
   - destruct (bytes_eqb (rq_target req) self); cbn; [discriminate|].
     destruct d as [[data v]|]; cbn; [|discriminate].
     destruct v, k, f; cbn; discriminate.
+Qed.
+
+
+(** ---- hex ---- *)
+Lemma hex_digit_is_hex n : n < 16 -> is_hex_char (hex_digit n) = true.
+Proof.
+  intros H. unfold hex_digit, is_hex_char.
+  destruct (n <? 10) eqn:E; [apply N.ltb_lt in E|apply N.ltb_ge in E].
+  - assert ((48 <=? 48 + n) = true) as -> by (apply N.leb_le; lia).
+    assert ((48 + n <=? 57) = true) as -> by (apply N.leb_le; lia). reflexivity.
+  - assert ((97 <=? 87 + n) = true) as -> by (apply N.leb_le; lia).
+    assert ((87 + n <=? 102) = true) as -> by (apply N.leb_le; lia).
+    rewrite orb_true_r. reflexivity.
+Qed.
+
+Lemma hex_of_is_hex l : is_hex (hex_of l) = true.
+Proof.
+  unfold is_hex. apply andb_true_iff. split.
+  - induction l as [|b l IH]; [reflexivity|]. cbn [hex_of flat_map app length]. exact IH.
+  - induction l as [|b l IH]; [reflexivity|]. cbn [hex_of flat_map app forallb].
+    rewrite !hex_digit_is_hex by (apply N.mod_lt; discriminate). exact IH.
+Qed.
+
+Lemma must_hex_hex_of l : must_hex (hex_of l) = Val tt.
+Proof. unfold must_hex. rewrite hex_of_is_hex. reflexivity. Qed.
+
+(** ---- pyramid ---- *)
+Lemma find_idx_bound c : forall l i j, find_idx c l i = Some j -> (j < i + length l)%nat.
+Proof.
+  induction l as [|x r IH]; intros i j H; cbn in H; [discriminate|].
+  destruct (bytes_eqb c x); [inversion H; subst; cbn; lia|].
+  apply IH in H. cbn. lia.
+Qed.
+
+Lemma bv_touch_ok n i : (i < n)%nat -> bv_touch (bv_bytes n) i = Val tt.
+Proof.
+  intros H. unfold bv_touch, bv_bytes.
+  assert (Hd : (i / 8 <= n / 8)%nat) by (apply Nat.div_le_mono; lia).
+  destruct (Nat.eqb (n mod 8) 0 && negb (Nat.eqb n 0))%bool eqn:E.
+  - apply andb_true_iff in E as [E1 _]. apply Nat.eqb_eq in E1.
+    assert (Hn : n = (8 * (n / 8))%nat) by (pose proof (Nat.div_mod n 8 ltac:(lia)); lia).
+    assert (i / 8 < n / 8)%nat by (apply Nat.div_lt_upper_bound; lia).
+    assert ((i / 8 <? n / 8)%nat = true) as -> by (apply Nat.ltb_lt; lia). reflexivity.
+  - assert ((i / 8 <? n / 8 + 1)%nat = true) as -> by (apply Nat.ltb_lt; lia). reflexivity.
+Qed.
+
+Lemma pyr_book_val hashes cids : pyr_book hashes cids = Val tt.
+Proof.
+  unfold pyr_book. destruct (Nat.eqb (length (dedup_into [] hashes)) 0); [reflexivity|].
+  apply for_each_val. intros c.
+  destruct (find_idx c (dedup_into [] hashes) 0) as [i|] eqn:E; [|reflexivity].
+  apply find_idx_bound in E. rewrite bv_touch_ok by lia. reflexivity.
+Qed.
+
+Lemma on_pyramid_resp_no_pan k c t : on_pyramid_resp k c t <> Pan.
+Proof.
+  unfold on_pyramid_resp. destruct k; [discriminate|].
+  destruct (tv_ok t); cbn; [|discriminate].
+  rewrite (for_each_val (fun r => must_hex (hex_of (pr_hash r)))) by (intros; apply must_hex_hex_of).
+  cbn. rewrite pyr_book_val. discriminate.
+Qed.
+
+Lemma pyramid_handler_total st fwd m reply t : res_outcome (pyramid_handler st fwd m reply t) <> Panicked.
+Proof.
+  unfold pyramid_handler. destruct m as [req|]; cbn; [|discriminate].
+  destruct (bytes_eqb (pq_target req) (ps_self st) || ps_root_known st) eqn:E.
+  - destruct (ps_local st) as [v|]; cbn; [|discriminate].
+    rewrite (for_each_val (fun a => must_hex (hex_of a))) by (intros; apply must_hex_hex_of). cbn. discriminate.
+  - unfold send_pyramid. destruct fwd; cbn; [|discriminate].
+    destruct (pyr_collect reply) as [c|]; cbn; [|discriminate].
+    pose proof (on_pyramid_resp_no_pan (ps_root_known st) c t) as H.
+    destruct (on_pyramid_resp (ps_root_known st) c t) as [[]|e|]; cbn; try discriminate. contradiction.
+Qed.
+
+(** ---- multicast client reads, relay ---- *)
+Lemma mc_clients_total maxpo self peer gids addrs gm :
+  mc_hs_out maxpo self peer gids <> Panicked /\ mc_group_node maxpo self addrs <> Panicked /\ mc_send gm <> Panicked.
+Proof.
+  repeat split.
+  - unfold mc_hs_out. destruct gids; cbn; [rewrite for_each_touch|]; cbn; discriminate.
+  - unfold mc_group_node. destruct addrs as [l|]; cbn; [|discriminate].
+    rewrite (for_each_val (fun a => group_touch maxpo self a)) by (intros; apply group_touch_val). cbn. discriminate.
+  - unfold mc_send. destruct gm as [g|]; cbn; [|discriminate]. destruct (Nat.eqb _ 0); cbn; discriminate.
+Qed.
+
+Lemma rt_relay_total maxpo self ic fw m : rt_relay maxpo self ic fw m <> Panicked.
+Proof.
+  unfold rt_relay. destruct m as [req|]; cbn; [|discriminate].
+  destruct (negb (rr_midcall req) && negb (bytes_eqb (rr_dest req) self)); cbn; [|discriminate].
+  destruct (pslice_bin_val maxpo (maxpo + 1) self (rr_dest req) ltac:(lia)) as [b ->]; cbn.
+  destruct ic; [destruct fw|]; cbn; discriminate.
 Qed.
